@@ -128,6 +128,14 @@ def P_C06 (p : Program) (r : Result) : List String :=
   if !acceptedWF p r then [] else
   cmpRendered "c06" (DStmt.render DTree.flat) (denotePairs p r)
 
+/-- C12, with "its declaration" read lexically: uniqueness and declaration records for every program
+(`P_C12`), and on accepted well-formed programs every read or assignment refers to the declaration
+lexical scoping selects (the resolver comparison of C03, up to the bijection between source
+declarations and internal names) -/
+def P_C12g (p : Program) (r : Result) : List String :=
+  P_C12 r ++
+  (if acceptedWF p r then cmpRendered "c12:its-declaration" (fun d => " ".intercalate d.refs) (denotePairs p r) else [])
+
 /-- C07 is stated for every accepted program whose chains are well typed; the bracketing of the
 emitted operations is compared with the reference precedence tree -/
 def P_C07 (p : Program) (r : Result) : List String :=
